@@ -2,6 +2,7 @@
 package c04
 
 import (
+	"context"
 	"fmt"
 	"os"
 	"strings"
@@ -278,6 +279,19 @@ func propGenuine(t *rapid.T) {
 			r, err = mq, merr
 			if merr == nil && mq.State != nut05.Paid {
 				t.Fatalf("VIOLATION C04|melt_not_paid: state %v", r)
+			}
+			if merr == nil {
+				// the quote is paid: presenting it once more with inputs the reference does not find genuine (a forged
+				// proof, the spent proof with another amount) must be refused like any other request
+				forged := cashu.Proof{Amount: p.Amount, Id: p.Id, Secret: w.NewSecret(), C: "02" + strings.Repeat("cd", 32)}
+				changed := p
+				changed.Amount *= 2
+				for _, bad := range []cashu.Proof{forged, changed} {
+					if r2, err2 := w.Mint.MeltTokens(context.Background(), nut05.PostMeltBolt11Request{Quote: q.ID, Inputs: cashu.Proofs{bad}}); err2 == nil {
+						t.Fatalf("VIOLATION C04|melt_of_paid_quote_accepts_any_input: quote %s already paid; a melt request with input {amount %d secret %.16q C %.20s} was answered without error (state %s)", q.ID, bad.Amount, bad.Secret, bad.C, r2.State)
+					}
+				}
+				rec.Class("melt_retry_on_paid_quote_with_bad_inputs")
 			}
 		}
 		accepted := err == nil
